@@ -14,7 +14,6 @@ import (
 	nullmetrics "github.com/attestantio/vouch/services/metrics/null"
 	"github.com/attestantio/vouch/services/synccommitteeaggregator"
 	"github.com/prysmaticlabs/go-bitfield"
-	"github.com/rs/zerolog"
 	e2wtypes "github.com/wealdtech/go-eth2-wallet-types/v2"
 )
 
@@ -118,7 +117,7 @@ func (c15Accounts) SyncCommitteeAccountsForEpochByIndex(_ context.Context, _ pha
 // chain specification. New leaves the recorded head roots empty.
 func c15New(label string, ct *vstub.ChainTime, roots *c15Roots, contribs *c15Contribs, sgn *c15CPSigner, sub *c15Submitter) *Service {
 	s, err := New(context.Background(),
-		WithLogLevel(zerolog.Disabled),
+		WithLogLevel(vnd.LogLevel()),
 		WithMonitor(&nullmetrics.Service{}),
 		WithSpecProvider(&c15Spec{spec: map[string]any{
 			"SLOTS_PER_EPOCH": ct.SPE, "SYNC_COMMITTEE_SIZE": uint64(512), "SYNC_COMMITTEE_SUBNET_COUNT": uint64(4),
